@@ -3,8 +3,8 @@ NEXT XNext
 CONSTANTS
   Datas <- MCDatas
   Scripts <- MCScripts
-  CLs <- MCCLs
-  Sizes <- MCSizes
+  CLs <- QCLs
+  Sizes <- QSizes
   ShortReads = TRUE
   ChargeByRequested = FALSE
   BoundLineOps = TRUE
@@ -12,6 +12,9 @@ CONSTANTS
   CountTruncated = TRUE
   HonourDisconnect = TRUE
   TellFromZero = TRUE
+  RejectNegativeCL = TRUE
+  AccountBeforeYield = TRUE
+  ExhaustToTheEnd = TRUE
   Depth = 0
   MaxEvents = 2
   MaxEvLen = 2
@@ -22,3 +25,4 @@ INVARIANT SizedReadBounded
 INVARIANT NeverAskBeyondCL
 INVARIANT IndicatorsAgree
 INVARIANT DisconnectEndsStream
+INVARIANT ExhaustEndsStream
